@@ -20,6 +20,11 @@ out = p.stdout + p.stderr
 wall = time.time() - t
 if p.returncode != 0 and any(c in out for c in codes):
     print(f"[{prop}:compile-probe] {crate}: rejected by the borrow checker as required ({wall:.1f}s)", file=sys.stderr)
+    ev = os.path.join(V, "evidence", f"{prop}.json")
+    if os.path.exists(ev):
+        e = json.load(open(ev))
+        e["coverage"]["compile_probe"] = {"probe": f"probes/{crate}", "what": "auxiliary static check, not a simulation: a program that drops a recorder while the guard returned by set_default_local_recorder is alive must be rejected by the compiler", "outcome": "rejected (" + ", ".join(c for c in codes if c in out) + ")", "wall_s": round(wall, 1)}
+        json.dump(e, open(ev, "w"), indent=1)
     sys.exit(0)
 if p.returncode == 0:
     os.makedirs(os.path.join(V, "replays"), exist_ok=True)
